@@ -268,6 +268,14 @@ def monitorOp (prop : String) (seen : Seen) (v : OpView) (next : Option OpView) 
   | "C06" =>
     if !isTransfer op then none
     else
+      -- exactly the method selected by transfer mode and RFC 2428 setting: no set-up command of another method is sent
+      let verbOfW (b : Bytes) : Bytes := b.takeWhile fun c => c != 32 && c != 13
+      let setupVerbs := [str "EPSV", str "PASV", str "EPRT", str "PORT"]
+      let selected := if seen.active then (if seen.rfc then str "EPRT" else str "PORT") else (if seen.rfc then str "EPSV" else str "PASV")
+      let sentSetups := (writes.map verbOfW).filter fun v => setupVerbs.contains v
+      if sentSetups.any (· != selected) then some "set-up-command-of-a-method-that-is-not-selected"
+      else if sentSetups.length > 1 then some "more-than-one-set-up-command"
+      else
       let setupReply := gen.head?
       let dcs := impl.filter (·.startsWith "dc:")
       let nsock := (impl.filter (·.startsWith "ds:")).length
@@ -319,6 +327,10 @@ def monitorOp (prop : String) (seen : Seen) (v : OpView) (next : Option OpView) 
       else if impl.any (fun t => t.startsWith "sk:" || t.startsWith "sr:" || t.startsWith "dr:" || t.startsWith "dw:" || t.startsWith "cb:b") then
         some "refused-transfer-moved-data"
       else if !returned then some "refused-transfer-threw"
+      -- the operation stops at the refused step: nothing is sent after the command that was refused (no ABOR either)
+      else if (match gen.findIdx? (fun (c, _) => c ≥ 400 && c != 421) with
+               | some k => decide (writes.length > k + 1)
+               | none => false) then some "command-sent-after-the-refusal"
       else if retPositive ret != some false then some "refused-transfer-reported-positive"
       else if retReplies ret != some generated then some "refused-transfer-replies-differ"
       else if fds != 0 then some "refused-transfer-left-descriptor"
